@@ -152,7 +152,7 @@ def conn_of(ctx, tr, I, node):
       doc='O14.1: the first message on an incoming connection names the peer: a known member address binds the connection to exactly that '
           'node (later messages are delivered with that node as source) and reports it connected once; "readonly" creates a fresh '
           'non-member node; anything else disconnects the connection and leaves it in no table',
-      assumptions=['no-crypto', 'a list whose head is a registered utility command is handled by _onUtilityMessage (outside this unit); every other first '
+      assumptions=['no-crypto', 'a list whose head is a registered utility command is handled by _onUtilityMessage (unit transport.utility); every other first '
                    'message - any picklable value a stranger may send - is in scope'],
       canaries=[('no-disconnect-for-unknown', lambda mod: mutate_function(mod, '%s._onIncomingMessageReceived' % CLS, _mut_no_disconnect), ['O14.1.unknown-peer-disconnected'])])
 def tr_incoming(ctx, kind):
@@ -682,3 +682,126 @@ def tr_init(ctx, readonly):
         ctx.prove(f.get('_ready') is False and len(servers) == 1 and f.get('_server') is not None, 'C14:init.transport.member-has-a-server-and-is-not-ready-before-binding')
     for n in ('_onMessageReceivedCallback', '_onNodeConnectedCallback', '_onNodeDisconnectedCallback', '_onReadonlyNodeConnectedCallback', '_onReadonlyNodeDisconnectedCallback'):
         ctx.prove(n in f and f[n] is None, 'C14:init.transport.no-callbacks-until-set', info=n)
+
+
+# --------------------------------------------------------------------------------------------------------------------------------
+# utility (admin) messages: _onIncomingMessageReceived -> _onUtilityMessage -> registered callback -> _utilityCallback -> reply
+
+class PartialKw(Partial):
+    def __init__(self, f, args, kw):
+        Partial.__init__(self, f, args)
+        self.kw = dict(kw)
+
+
+def partial_kw_ext(I, args, kw):
+    return PartialKw(args[0], tuple(args[1:]), kw)
+
+
+def _map_str_ext(I, args, kw):
+    """map(str, <list of concrete strings / ints>) - the only use in transport.py (_utilityCallback)"""
+    f, seq = args
+    c = I.ctx.cell(seq) if isinstance(seq, Ref) else seq
+    if not isinstance(c, PList) or not all(isinstance(x, (str, int)) and not isinstance(x, bool) for x in c.items):
+        raise Undecided('map over %r' % (c,))
+    return I.ctx.alloc(PList([str(x) for x in c.items]))
+
+
+UTIL_CMDS = ('status', 'add', 'remove', 'set_version')
+
+
+def _run_tr_util(ctx, tr, meth, args, kw=None):
+    mod = source.load(TRMOD)
+    fn, ci = mod.find('%s.%s' % (CLS, meth))
+    if fn is None:
+        raise Undecided('%s.%s not found' % (CLS, meth))
+    ext = {'functools.partial': partial_kw_ext, 'os.urandom': lambda I, a, k: b'k', 'map': _map_str_ext}
+    I = Interp(ctx, registry=REG, externals=ext, inline=INL, hooks={'call:cb': cb_hook, 'transport': tr, 'new:Node': node_new,
+                                                                   'modules': [TRMOD], 'bases': {CLS: ('Transport',)}})
+    try:
+        return 'ok', I.call_funcdef(fn, mod, CLS, tr, list(args), dict(kw or {}), None, '%s.%s' % (CLS, meth)), I
+    except PyExc as e:
+        return e.typ, e, I
+
+
+@unit(name='transport.utility', relpath=TRMOD, qual=['%s._onIncomingMessageReceived' % CLS, '%s._onUtilityMessage' % CLS], props=['C14', 'C10'],
+      cases=[dict(cmd=c) for c in UTIL_CMDS],
+      doc='O14.9: a first message that is a list headed by a registered utility command is handed to exactly the callback registered for '
+          'that command, with the remaining items as its arguments and a reply continuation bound to this connection; the connection is '
+          'bound to no node, nobody is reported connected, no later message of it is delivered as a node\'s message and the member tables '
+          'are unchanged - an admin connection never becomes a message source',
+      assumptions=['no-crypto', 'the registered callbacks are the SyncObj wrappers of unit membership.request / setCodeVersion (opaque here)'],
+      canaries=[('wrong-args', lambda mod: mutate_function(mod, '%s._onUtilityMessage' % CLS, _mut_util_args), ['O14.9.callback-gets-the-arguments-after-the-command'])])
+def tr_utility(ctx, cmd):
+    tr, conns, members = mk_transport(ctx)
+    newc = ctx.alloc(PObj('TcpConnection', {'state': CONNECTED, 'name': 'incoming', 'sendRandKey': None}))
+    ctx.setcell(ctx.cell(tr).fields['_unknownConnections'], GSet([(True, newc, True)]))
+    ctx.setcell(ctx.cell(tr).fields['_onUtilityMessageCallbacks'], PDict(dict((c, Callable_('cb:util:' + c)) for c in UTIL_CMDS)))
+    arg = Opaque('arg', FreshInt('utilArg'))
+    msg = ctx.alloc(PList([cmd, arg]))
+    pre_conn = [(p, k, v) for p, k, v in F_(ctx, tr, '_connections').entries]
+    outcome, r, I = _run_tr_util(ctx, tr, '_onIncomingMessageReceived', [newc, msg])
+    ctx.prove(outcome == 'ok', 'C14:O14.9.no-exception', info=outcome)
+    if outcome != 'ok':
+        return
+    cbs = ctx.glist('cb')
+    util = [c for c in cbs if c[0].startswith('cb:util:')]
+    ctx.prove(len(util) == 1 and util[0][0] == 'cb:util:' + cmd, 'C14+C10:O14.9.exactly-the-registered-callback-runs-once', info=repr([c[0] for c in cbs]))
+    ctx.prove(len(cbs) == len(util), 'C14+C10:O14.9.admin-connection-reported-to-nobody', info=repr([c[0] for c in cbs]))
+    if len(util) == 1:
+        a = util[0][1]
+        a0 = ctx.cell(a[0]) if len(a) > 0 and isinstance(a[0], Ref) else None
+        ctx.prove(len(a) == 2 and isinstance(a0, PList) and len(a0.items) == 1 and a0.items[0] is arg, 'C10+C14:O14.9.callback-gets-the-arguments-after-the-command',
+                  info=repr(a0))
+        k = a[1] if len(a) > 1 else None
+        ok = isinstance(k, PartialKw) and isinstance(k.f, BoundMethod) and k.f.name == '_utilityCallback' and not k.args and set(k.kw) == {'conn', 'args'}
+        ctx.prove(ok and isinstance(k.kw['conn'], Ref) and k.kw['conn'].addr == newc.addr, 'C14+C10:O14.9.reply-continuation-bound-to-this-connection', info=repr(k))
+        if ok:
+            ka = ctx.cell(k.kw['args']) if isinstance(k.kw['args'], Ref) else None
+            ctx.prove(isinstance(ka, PList) and len(ka.items) == 2 and ka.items[0] == cmd.upper() and ka.items[1] is arg,
+                      'C10:O14.9.reply-names-the-command-and-its-arguments', info=repr(ka))
+    bound = [(p, k) for p, k, v in F_(ctx, tr, '_connections').entries if isinstance(v, Ref) and v.addr == newc.addr and p is not False]
+    ctx.prove(len(bound) == 0, 'C14+C10:O14.9.admin-connection-bound-to-no-node')
+    ctx.prove(ctx.cell(newc).fields.get('msgcb') is None, 'C14+C10:O14.9.admin-connection-delivers-no-node-message')
+    ro = F_(ctx, tr, '_readonlyNodes')
+    ctx.prove(not [1 for p, k, v in ro.entries if p is not False], 'C14+C18:O14.9.admin-connection-is-not-an-observer')
+    for i in range(U):
+        ctx.prove(Iff(F_(ctx, tr, '_nodes').bits[i], members[i]), 'C14+C10:O14.9.members-untouched')
+    post_conn = F_(ctx, tr, '_connections').entries
+    ctx.prove(len(post_conn) == len(pre_conn) and all(a_[1] is b_[1] and a_[2] is b_[2] and (a_[0] is b_[0]) for a_, b_ in zip(pre_conn, post_conn)),
+              'C14+C10:O14.9.connections-of-members-untouched')
+
+
+def _mut_util_args(fn):
+    cnt = 0
+    for n in ast.walk(fn):
+        if isinstance(n, ast.Slice) and isinstance(n.lower, ast.Constant) and n.lower.value == 1:
+            n.lower = ast.Constant(0)
+            cnt += 1
+    return cnt
+
+
+@unit(name='transport.utilityCallback', relpath=TRMOD, qual=['%s._utilityCallback' % CLS], props=['C10', 'C17'],
+      cases=[dict(err=e, res=r_) for e in (0, 1, 2, 5, None) for r_ in (None, 'text')],
+      doc='O10.8/O17.5: the answer to an admin request is truthful: exactly one message is sent, on the requesting connection; it starts with '
+          'SUCCESS only if the request completed with FAIL_REASON.SUCCESS and with FAIL for every other completion code, followed by the '
+          'command and its arguments; a result is passed through verbatim only when there is no completion code at all (status)',
+      assumptions=['FAIL_REASON codes are the small integers of config.py (read from the real module)'])
+def tr_utility_callback(ctx, err, res):
+    tr, conns, members = mk_transport(ctx)
+    newc = ctx.alloc(PObj('TcpConnection', {'state': CONNECTED, 'name': 'incoming', 'sendRandKey': None}))
+    args = ctx.alloc(PList(['ADD', 'host:1']))
+    outcome, r, I = _run_tr_util(ctx, tr, '_utilityCallback', [res, err], {'conn': newc, 'args': args})
+    ctx.prove(outcome == 'ok', 'C10:O10.8.no-exception', info=outcome)
+    if outcome != 'ok':
+        return
+    sends = [o for o in ctx.glist('conn_ops') if o[0] == 'send']
+    ctx.prove(len(sends) == 1 and sends[0][1] == 'incoming', 'C10+C17:O10.8.one-answer-on-the-requesting-connection', info=repr(sends))
+    if len(sends) != 1:
+        return
+    m = sends[0][2]
+    if err is None and res:
+        ctx.prove(m == res, 'C10:O10.8.result-passed-through-when-there-is-no-completion-code', info=repr(m))
+    elif err == 0:
+        ctx.prove(m == 'SUCCESS ADD host:1', 'C10+C17:O10.8.success-reported-for-success', info=repr(m))
+    else:
+        ctx.prove(m == 'FAIL ADD host:1', 'C10+C17:O10.8.every-other-completion-reported-as-fail', info=repr(m))
